@@ -256,7 +256,7 @@ def hyp_settings(max_examples: int, shrink: bool = True):
     )
 
 
-def run_given(stats: Stats, seed_val: int, max_examples: int, strategy, body, shrink: bool = True) -> None:
+def run_given(stats: Stats, seed_val: int, max_examples: int, strategy, body, shrink: bool = True, budget_s: float | None = None) -> None:
     """Run body(case) over `strategy`; body raises Violation on a counterexample.
     The shrunk violation (if any) is recorded in stats; statistics gathered while
     shrinking are discarded by snapshotting/restoring around failures is not needed:
@@ -265,16 +265,27 @@ def run_given(stats: Stats, seed_val: int, max_examples: int, strategy, body, sh
     import hypothesis
     from hypothesis import given
 
-    state = {'failed': False}
+    state = {'failed': False, 'skipped': 0}
+    if budget_s is None:
+        budget_s = float(os.environ.get('VERIF_BUDGET_S', '0')) or (150.0 if os.environ.get('VERIF_TIER_ACTIVE', 'quick') == 'quick' else 2400.0)
+    t_start = time.time()
 
     @hypothesis.seed(seed_val & 0xFFFFFFFFFFFFFFFF)
     @hyp_settings(max_examples, shrink)
     @given(strategy)
     def test(case):
+        # wall-clock budget: once exhausted, remaining examples (and shrink candidates) are skipped,
+        # which means "inconclusive for the remainder", never a violation
+        now = time.time()
+        if now - t_start > budget_s * (2.0 if state['failed'] else 1.0):
+            state['skipped'] += 1
+            return
         try:
             body(case, stats if not state['failed'] else Stats())
-        except Violation:
+        except Violation as v:
             state['failed'] = True
+            if state.get('best') is None or len(repr(v.replay)) <= len(repr(state['best'].replay)):
+                state['best'] = v
             raise
 
     try:
@@ -283,6 +294,15 @@ def run_given(stats: Stats, seed_val: int, max_examples: int, strategy, body, sh
         stats.violation(v)
     except hypothesis.errors.Unsatisfiable as e:  # generator problem, not a defect
         raise HarnessError('generator unsatisfiable: %s' % e)
+    except BaseException as e:
+        # Flaky / exception groups arise when the time budget cut shrinking short: report the smallest
+        # violation seen instead (it was raised by the oracle on a real input)
+        if state.get('best') is not None and not isinstance(e, (KeyboardInterrupt, SystemExit, HarnessError)):
+            stats.violation(state['best'])
+        else:
+            raise
+    if state['skipped']:
+        stats.excluded['examples-skipped-after-time-budget'] += state['skipped']
 
 
 def run_machine(stats: Stats, seed_val: int, max_examples: int, steps: int, machine_cls) -> None:
